@@ -346,3 +346,94 @@ func DiscardEqualsPeeked(p *load.Program, r *report.Report) {
 		r.Unknown(rule, "discard/discardPeeked/passes-count-on", p.Pos(dp.Pos()), "no bufio.Reader.Discard call found in discardPeeked")
 	}
 }
+
+// NoEffectBeforeError: a call that is refused leaves the object as it was. In each listed method no path leads from an
+// instruction that changes state reachable from the receiver (a store through a field address rooted at the receiver, an
+// insertion into / deletion from a map loaded from it, a call of a pointer-receiver method on one of its fields) to a
+// return whose error result is not provably nil... precisely: to a return that can carry a non-nil error.
+func NoEffectBeforeError(p *load.Program, r *report.Report, rule string, fnKeys []string, why string) {
+	for _, k := range fnKeys {
+		f := p.Func(k)
+		key := k + "/refused-call-changes-nothing"
+		if f == nil || len(f.Params) == 0 {
+			r.Unknown(rule, key, "", "method "+k+" not found")
+			continue
+		}
+		ei := ssau.ErrorResultIndex(f.Signature)
+		if ei < 0 {
+			r.OK(rule, key, p.Pos(f.Pos()), "the method has no error result: it cannot refuse a call")
+			continue
+		}
+		recv := f.Params[0]
+		rooted := func(v ssa.Value) bool {
+			for i := 0; i < 12 && v != nil; i++ {
+				switch x := v.(type) {
+				case *ssa.Parameter:
+					return x == recv
+				case *ssa.FieldAddr:
+					v = x.X
+				case *ssa.IndexAddr:
+					v = x.X
+				case *ssa.UnOp:
+					v = x.X
+				case *ssa.Phi:
+					return false
+				default:
+					return false
+				}
+			}
+			return false
+		}
+		// error returns
+		var errRets []*ssa.Return
+		for _, ret := range ssau.Returns(f) {
+			if len(ret.Results) > ei && !ssau.IsNilConst(ret.Results[ei]) {
+				errRets = append(errRets, ret)
+			}
+		}
+		var bad []string
+		neff := 0
+		for _, b := range f.Blocks {
+			for _, in := range b.Instrs {
+				what := ""
+				switch x := in.(type) {
+				case *ssa.Store:
+					if rooted(x.Addr) {
+						what = "store to " + x.Addr.String()
+					}
+				case *ssa.MapUpdate:
+					if rooted(x.Map) {
+						what = "map insertion"
+					}
+				case ssa.CallInstruction:
+					cc := x.Common()
+					if bi, ok := cc.Value.(*ssa.Builtin); ok && (bi.Name() == "delete" || bi.Name() == "clear") && len(cc.Args) > 0 && rooted(cc.Args[0]) {
+						what = bi.Name() + " on a map"
+					} else if cal := cc.StaticCallee(); cal != nil && cal.Signature.Recv() != nil && len(cc.Args) > 0 {
+						if _, isPtr := cal.Signature.Recv().Type().Underlying().(*types.Pointer); isPtr && rooted(cc.Args[0]) && cc.Args[0] != ssa.Value(recv) {
+							what = "call of " + cal.Name() + " on a field"
+						}
+					}
+				}
+				if what == "" {
+					continue
+				}
+				neff++
+				for _, ret := range errRets {
+					if (ret.Block() == b && ssau.InstrBefore(in, ret)) || (ret.Block() != b && ssau.Reaches(b, ret.Block())) {
+						bad = append(bad, fmt.Sprintf("%s at %s can be followed by the error return at %s", what, p.Pos(in.Pos()), p.Pos(ret.Pos())))
+						break
+					}
+				}
+			}
+		}
+		switch {
+		case len(bad) > 0:
+			r.Bad(rule, key, p.Pos(f.Pos()), strings.Join(bad, "; ")+" — "+why)
+		case len(errRets) == 0:
+			r.OK(rule, key, p.Pos(f.Pos()), "no return carries an error")
+		default:
+			r.OK(rule, key, p.Pos(f.Pos()), fmt.Sprintf("%d state changes, none of them can be followed by one of the %d error returns", neff, len(errRets)))
+		}
+	}
+}
